@@ -8,6 +8,7 @@ import (
 	"time"
 
 	"github.com/karagenc/socket.io-go/internal/sync"
+	"github.com/karagenc/socket.io-go/internal/verifhook"
 
 	"github.com/fatih/structs"
 	"github.com/karagenc/socket.io-go/adapter"
@@ -409,6 +410,7 @@ func (s *clientSocket) onConnect(_ *parser.PacketHeader, decode parser.Decode) {
 	s.stateMu.Lock()
 	s.state = clientSocketConnStateConnected
 	s.stateMu.Unlock()
+	verifhook.Yield("cs.connected")
 
 	s.debug.Log("Socket connected")
 
@@ -858,6 +860,7 @@ func (s *clientSocket) _sendBuffers(volatile, forceSend bool, ackID *uint64, buf
 		// packet for it. Such packets wait in sendBuffer and are sent by emitBuffered.
 		sendImmediately := s.state == clientSocketConnStateConnected
 		s.stateMu.RUnlock()
+		verifhook.Yield("cs.gateDecided")
 		if sendImmediately || forceSend {
 			s.manager.packet(packets...)
 		} else if !volatile {
